@@ -96,3 +96,66 @@ p["units"] += [
     K("h_mem::mem_qf_alloc", "quick", "QF remainder table: blocks*64 in [slots*r, slots*r+64)"),
     K("h_mem::mem_other_sizes", "quick", "Bloom words, CMS counters, HLL registers match the configuration"),
 ]
+
+# --------------------------------------------------------------------------- C15
+TD_ASSUME = COMMON_K_ASSUME + [
+    "digests are built through TDigest::verif_from_parts from symbolic centroids: weights 1..4, integer means -8..8 (as f64) in non-decreasing order, min <= first mean, last mean <= max (every reachable digest satisfies this ordering invariant)",
+    "tolerance 1e-9 on comparisons (arithmetic on these small integers is exact or off by a few ulps)",
+    "dev profile: debug_assert!s of interpolate() are checked too",
+]
+p = prop("C15",
+         functions=["TDigest::{quantile,cdf,min,max,count}", "TDigestInner::{quantile,cdf,interpolate,count,merge(early return)}"],
+         bounds={"quick": "1 and 2 centroids, weights 1..4, means/min/max integers in -8..8, q on the 1/16 grid, x on the half-integer grid",
+                 "thorough": "adds 3 centroids"},
+         outside=["more than 3 centroids", "non-integer means / weights outside 1..4", "scale functions (read path does not use them)"],
+         assumptions=TD_ASSUME)
+for n, tier in (("n1", "quick"), ("n2", "quick"), ("n3", "thorough")):
+    p["units"] += [
+        K("h_tdigest::td_quantile_ends_" + n, tier, "quantile(0)=min, quantile(1)=max", n, mem_class_gb=6),
+        K("h_tdigest::td_quantile_monotone_" + n, tier, "quantile monotone on the 1/16 grid, within [min,max], repeatable", n, mem_class_gb=6, timeout_s=1800),
+        K("h_tdigest::td_cdf_shape_" + n, tier, "cdf monotone, in [0,1], 0 below min, 1 from max", n, mem_class_gb=6, timeout_s=1800),
+        K("h_tdigest::td_roundtrip_" + n, tier, "|cdf(quantile(q)) - q| <= w_max/S (strictly increasing means)", n, mem_class_gb=6, timeout_s=1800),
+    ]
+p["units"] += [K("h_tdigest::td_empty_reads", "quick", "empty digest: NaN / 0")]
+# --------------------------------------------------------------------------- C16
+p = prop("C16",
+         functions=["TDigest::{insert,insert_weighted,count,sum,mean,min,max,is_empty,n_centroids}", "TDigestInner::{insert_weighted,merge}", "Centroid::{fuse,mean}", "K0::{f,f_inv}"],
+         bounds="states with <=2 centroids + <=2 backlog entries (hook-built), weights 0..4, integer values -8..8; K0 with delta 1.1 (total fusion) and 1000 (none); backlog sizes 0 and 10",
+         outside=["merges of more than 3 inputs (ran out of memory at design time)", "K1 (asin: FFI), K2/K3 (ln/exp) scale functions in merge", "floating-point accumulation error on non-integer data"],
+         assumptions=TD_ASSUME + ["aggregates are observed as raw totals over centroids+backlog through verif hooks, and through count()/sum()/mean() after the merge"])
+p["units"] += [
+    K("h_tdigest::td_insert_step_c0b0", "quick", "insert_weighted into the empty digest"),
+    K("h_tdigest::td_insert_step_c2b1", "quick", "insert_weighted, 2 centroids + 1 backlog"),
+    K("h_tdigest::td_insert_step_c1b2", "quick", "insert_weighted, 1 centroid + 2 backlog"),
+    K("h_tdigest::td_merge_step_c1b1_fuse", "quick", "merge 1+1, delta=1.1", mem_class_gb=8, timeout_s=1800),
+    K("h_tdigest::td_merge_step_c1b1_keep", "quick", "merge 1+1, delta=1000", mem_class_gb=8, timeout_s=1800),
+    K("h_tdigest::td_insert_merges_backlog0", "quick", "max_backlog_size=0: insert merges immediately", mem_class_gb=8, timeout_s=1800),
+    K("h_tdigest::td_merge_step_c2b1_keep", "thorough", "merge 2+1, delta=1000", mem_class_gb=20, timeout_s=5400, mem_gb=40),
+    K("h_tdigest::td_merge_step_c1b2_fuse", "thorough", "merge 1+2, delta=1.1", mem_class_gb=20, timeout_s=5400, mem_gb=40),
+]
+
+# --------------------------------------------------------------------------- C14
+M_ASSUME = [
+    "engine M: own symbolic interpreter over rustc's MIR dump (dev profile, overflow checks on) of /repo's current tree; z3 decides every path query; "
+    "every arithmetic-overflow / index / unwrap panic path must be infeasible",
+    "container contracts (trusted, validated natively on every run against the real crate): IntVector<u64> = array with range-checked get/set; Range/Vec/slice iterators = finite sequences; "
+    "Rng::gen::<bool> / gen_range = fresh symbolic outcomes; CuckooFilter::hash(&fingerprint) = uninterpreted function into [0,n_buckets); start(x) = (f, i1, i1^h(f))",
+    "MAX_NUM_KICKS (named constant in the MIR) is replaced by the stated eviction bound",
+    "pre-state: arbitrary slot contents with n_elements = number of non-zero slots (every such table is reachable: an element with fingerprint g and bucket i produces slot value g in bucket i)",
+    "every SMT counterexample is re-executed natively (real crate, l_fingerprint=64, scripted RNG, table-driven hasher) and reported only if the violated clause also fails there",
+]
+p = prop("C14", engine="mir2smt+kani",
+         technique="symbolic execution of the crate's MIR into SMT (z3), one inductive step from an arbitrary valid table; Kani cross-check of the same step on the compiled code",
+         functions=["CuckooFilter::{insert,delete,query,start(contract),insert_internal,write_to_bucket,has_in_bucket,remove_from_bucket,restore_state,len,is_empty}"],
+         bounds={"quick": "(bucketsize,n_buckets)=(2,2): 4 slots, 64-bit symbolic slot contents/fingerprints, all hash functions, all RNG outcomes, eviction chains <= 2 and <= 4",
+                 "thorough": "adds (2,4) and (4,2) [8 slots] and chains <= 6"},
+         outside=["tables larger than 8 slots", "eviction chains longer than 6 (the relocation argument is per kick)", "the packed IntVector bit layout (Kani cross-check covers it at l=16, 4 slots)"],
+         assumptions=M_ASSUME)
+for (bs, nb, kicks, tier) in [(2, 2, 2, "quick"), (2, 2, 4, "quick"), (2, 4, 2, "thorough"), (4, 2, 2, "thorough"), (2, 2, 6, "thorough")]:
+    tag = "bs%dnb%dk%d" % (bs, nb, kicks)
+    p["units"].append(M("ck_insert_" + tag, tier, "insert(x) from an arbitrary valid table: Ok => Ok(true), len+1, class count +1 (others unchanged); Err => len and all class counts unchanged; n<bucketsize => Ok",
+                        tag, model="cuckoo", op="insert", bs=bs, nb=nb, kicks=kicks, need_witness=["ok", "err"], timeout_s=3600))
+for (bs, nb, tier) in [(2, 2, "quick"), (2, 4, "thorough"), (4, 2, "thorough")]:
+    tag = "bs%dnb%d" % (bs, nb)
+    p["units"].append(M("ck_delete_" + tag, tier, "delete(x): true iff a copy of x's class is stored; removes exactly one copy of that class; len-1", tag, model="cuckoo", op="delete", bs=bs, nb=nb, kicks=2, need_witness=["ret"]))
+    p["units"].append(M("ck_query_" + tag, tier, "query(y) iff count(class y) >= 1; pure", tag, model="cuckoo", op="query", bs=bs, nb=nb, kicks=2, need_witness=["ret"]))
